@@ -1128,6 +1128,186 @@ def run(ck):
                     ("val", lambda la4=la4: miso.pressure_at(lfq, loading_basis=la4[0], loading_unit=la4[1], material_basis=la4[2], material_unit=la4[3]) * K),
                     {**base_sig, "accessor": "model.pressure_at-input", "args": [str(x) for x in la4]})
 
+    # ------------------------------------------------------------------ (9) limits on NON-ASCENDING selections; isotherms that were built from ONE table
+    # Limit selection against the accessor's OWN whole selection: `acc(branch, limits=(lo, hi), units)` must be exactly the members x of
+    # `acc(branch, units)` (no limits: the values are tied to the SI oracle in (1)) with lo <= x <= hi, in the same order -- the same floats, so the
+    # comparison is exact, in stored and in requested units, with bounds ON values and between values, one-sided and two-sided, for the ascending
+    # adsorption branch, the DESCENDING desorption branch and the whole hysteresis data set (up, then down), and for supplementary columns that are
+    # not monotonic at all.  (A selection that is not by value -- bisection, first/last crossing, positions of a sorted copy -- differs here.)
+    reported = {}
+
+    def few(key, cap=6):
+        """at most `cap` replay files per kind of failure (every fail_case writes a file)"""
+        reported[key] = reported.get(key, 0) + 1
+        return reported[key] <= cap
+
+    def limit_sets(vals):
+        u = sorted(set(vals))
+        out = []
+        if len(u) >= 2:
+            i = rng.randrange(0, len(u) - 1)
+            j = rng.randrange(i, len(u) - 1)
+            out += [((u[i] + u[i + 1]) / 2, None), (None, (u[j] + u[j + 1]) / 2), ((u[i] + u[i + 1]) / 2, (u[j] + u[j + 1]) / 2 if j > i else u[-1] * 2 if u[-1] > 0 else None)]
+        a, b = sorted((rng.choice(u), rng.choice(u)))
+        out += [(a, b), (a, None), (None, b)]
+        # all-falsy limits are finding S60-C03 (generated in (8)); a bound of exactly zero next to a real one is fine, the values here are positive anyway
+        return [lim for lim in out if (lim[0] or lim[1]) and not (lim[0] is not None and lim[1] is not None and lim[0] > lim[1])]
+
+    def inside(vals, lim):
+        return [x for x in vals if (lim[0] is None or x >= lim[0]) and (lim[1] is None or x <= lim[1])]
+
+    def probe_limits(iso, sig, kws, others=()):
+        """kws: [(name of the unit set, pressure kwargs, loading kwargs)]"""
+        for branch in (None, "ads", "des"):
+            calls = []
+            for uname, pkw_, lkw_ in kws:
+                calls.append(("pressure", uname, lambda lim, indexed=False, pkw_=pkw_, branch=branch: iso.pressure(branch=branch, limits=lim, indexed=indexed, **pkw_)))
+                calls.append(("loading", uname, lambda lim, indexed=False, lkw_=lkw_, branch=branch: iso.loading(branch=branch, limits=lim, indexed=indexed, **lkw_)))
+            for key in others:
+                calls.append(("other_data", "stored", lambda lim, indexed=False, key=key, branch=branch: iso.other_data(key, branch=branch, limits=lim, indexed=indexed)))
+            for acc, uname, call in calls:
+                try:
+                    whole = [float(x) for x in call(None)]
+                    labels = list(call(None, indexed=True).index)
+                except Exception:  # noqa   (a refused whole-column request is reported by (1) / (2))
+                    continue
+                if not whole or not all(map(math.isfinite, whole)):
+                    continue
+                for lim in limit_sets(whole):
+                    exp = inside(whole, lim)
+                    exp_lab = [lb for lb, x in zip(labels, whole) if (lim[0] is None or x >= lim[0]) and (lim[1] is None or x <= lim[1])]
+                    try:
+                        got = [float(x) for x in call(lim)]
+                        got_lab = list(call(lim, indexed=True).index)
+                    except Exception as e:  # noqa
+                        got, got_lab = repr(e), None
+                    ck.count(("order-limits", acc, uname, branch, lim[0] is None, lim[1] is None, len(exp) == len(whole), len(exp) == 0), bucket="limits: non-ascending selections")
+                    if (got != exp or got_lab != exp_lab) and few(("limits", acc, uname, branch, sig.get("state"))):
+                        ck.fail_case({**{k: v for k, v in sig.items() if k not in ("stored", "adsorbate", "table")}, "accessor": "PointIsotherm." + acc,
+                                      "clause": "limits select exactly the stored points of the branch inside them, in measurement order", "branch": str(branch), "units": uname},
+                                     {"isotherm": {k: v for k, v in sig.items() if k in ("stored", "adsorbate", "table")}, "limits": list(lim), "whole_selection": whole, "got": got, "expected": exp, "got_row_labels": str(got_lab), "expected_row_labels": str(exp_lab)})
+
+    # Two isotherms (and the caller) that hold ONE table: DataFrames in every column layout -- among them the INTERNAL one (pressure key, loading key,
+    # 'branch', other keys sorted: what `iso.data()` / `iso.data_raw` of another isotherm have) -- are handed to the constructor twice; one of the
+    # isotherms is then converted permanently.  The other isotherm, and the caller's table, must be what they were: stored numbers, every accessor in
+    # stored and in requested units (SI oracle on the ORIGINAL numbers; = the converted one read natively), interpolation at the measured points.
+    def frame_layouts(keys, extra):
+        pk, lk = keys
+        return {"internal": [pk, lk, "branch"] + sorted(extra), "internal, no other columns": [pk, lk, "branch"], "branch last": [pk, lk] + sorted(extra) + ["branch"],
+                "others first": sorted(extra, reverse=True) + ["branch", lk, pk], "no branch column": [pk, lk] + sorted(extra)}
+
+    def probe_shared_table(ci):
+        w = worlds[0] if rng.random() < 0.7 else worlds[1]
+        P = w.props
+        st = (rng.choice(PST), rng.choice(LST), rng.choice(MST))
+        lab = [st[0][0], st[0][1], st[1][0], st[1][1], st[2][0], st[2][1], "K"]
+        n, nd = rng.randint(5, 8), rng.randint(3, 7)
+        up = sorted(rng.uniform(0.02, 0.95) for _ in range(n))
+        ps = up + sorted((rng.uniform(up[0] * 0.5, up[-1] * 0.99) for _ in range(nd)), reverse=True)
+        la = list(np.cumsum([rng.uniform(0.1, 1.0) for _ in range(n)]))
+        ls = la + sorted((rng.uniform(la[0] * 0.5, la[-1] * 0.99) for _ in range(nd)), reverse=True)
+        ps, ls = [float(x) for x in ps], [float(x) for x in ls]
+        if len(set(ps)) < n + nd or len(set(ls)) < n + nd:
+            return
+        marks = [0] * n + [1] * nd
+        keys = rng.choice([("pressure", "loading"), ("P", "L"), ("p_rel", "uptake")])
+        extra = {"enthalpy": [round(rng.uniform(1.0, 9.0), 6) for _ in range(n + nd)], "zeta": [float(i % 3) + 0.5 for i in range(n + nd)]}
+        layout = rng.choice(["internal", "internal", "internal, no other columns", "branch last", "others first", "no branch column", "data() of an isotherm", "data_raw of an isotherm"])
+        cols = {keys[0]: ps, keys[1]: ls, "branch": marks, **extra}
+        common = dict(pressure_key=keys[0], loading_key=keys[1], material=w.mat.name, adsorbate=w.ads.name, temperature=w.temp, pressure_mode=lab[0], pressure_unit=lab[1],
+                      loading_basis=lab[2], loading_unit=lab[3], material_basis=lab[4], material_unit=lab[5], temperature_unit="K")
+        if layout.endswith("of an isotherm"):
+            first = pg.PointIsotherm(isotherm_data=pd.DataFrame({k: cols[k] for k in [keys[1], "zeta", keys[0], "enthalpy"]}), branch=list(marks), **common)
+            table = first.data() if layout.startswith("data()") else first.data_raw
+            others = ["enthalpy", "zeta"]
+        else:
+            order = frame_layouts(keys, extra)[layout]
+            table = pd.DataFrame({k: cols[k] for k in order})
+            others = [k for k in order if k in extra]
+        bkw = {} if "branch" in table.columns else {"branch": list(marks)}
+        before = table.copy(deep=True)
+        sig = {"stored": [str(x) for x in lab[:6]], "table": layout, "state": "two isotherms built from one table"}
+        iso_a = pg.PointIsotherm(isotherm_data=table, **bkw, **common)
+        iso_b = pg.PointIsotherm(isotherm_data=table, **bkw, **common)
+        ck.count(("shared-table", layout, keys, tuple(lab[:6])), bucket="shared table: " + layout)
+        # limits on this longer hysteresis loop (stored units) before anything is converted; the extra columns are not monotonic
+        probe_limits(iso_a, sig, [("stored", {}, {})], others=others)
+        if rng.random() < 0.5:                       # interpolators of both cached before the conversion
+            for z in (iso_a, iso_b):
+                try:
+                    z.loading_at(ps[1]), z.pressure_at(ls[1])
+                except Exception:  # noqa
+                    pass
+        k = rng.random()
+        op = ("P", rng.choice([x for x in PST if x != st[0]])) if k < 0.35 else ("L", rng.choice([x for x in LST if x != st[1]])) if k < 0.6 else \
+            ("M", rng.choice([x for x in MST if x != st[2]])) if k < 0.75 else ("A", rng.choice(PST) + rng.choice(LST) + rng.choice(MST))
+        try:
+            c02.apply_op(iso_b, op[0], op[1])
+        except Exception as e:  # noqa   (a refused conversion is C02's business; the table must still be the caller's)
+            ck.notes.append("shared table: conversion refused: " + repr(e)[:120])
+        sig["converted_other"] = op[0]
+        labb = c02.labels_of(iso_b)
+
+        def report(clause, detail, acc="PointIsotherm.__init__", **more):
+            if not few((acc, clause, sig["table"], more.get("units")), cap=4):
+                return
+            ck.fail_case({**{k: v for k, v in sig.items() if k != "stored"}, "accessor": acc, "clause": clause, **more},
+                         {"stored": sig["stored"], "pressure": ps, "loading": ls, "branch_marks": marks, "keys": list(keys),
+                          "conversion_of_the_other_isotherm": [op[0], [str(x) for x in op[1]]], **detail})
+        # the caller's table
+        same = list(table.columns) == list(before.columns) and list(table.index) == list(before.index) and all(
+            list(table[c]) == list(before[c]) for c in before.columns)
+        if not same:
+            bad = [c for c in before.columns if c not in table.columns or list(table[c]) != list(before[c])]
+            report("the caller's table is unchanged by a permanent conversion of an isotherm built from it",
+                   {"columns_changed": bad, "before": [float(x) for x in before[bad[0]]][:4] if bad else None, "after": [float(x) for x in table[bad[0]]][:4] if bad and bad[0] in table.columns else None})
+        # the other isotherm: labels, stored numbers, accessors
+        if c02.labels_of(iso_a)[:6] != lab[:6]:
+            report("labels of the isotherm that was not converted", {"labels": [str(x) for x in c02.labels_of(iso_a)]})
+        idx = {None: list(range(n + nd)), "ads": list(range(n)), "des": list(range(n, n + nd))}
+        rq_p, rq_l, rq_m = (labb[0], labb[1]), (labb[2], labb[3]), (labb[4], labb[5])
+        pkw_ = dict(pressure_mode=rq_p[0], pressure_unit=rq_p[1])
+        lkw_ = dict(loading_basis=rq_l[0], loading_unit=rq_l[1], material_basis=rq_m[0], material_unit=rq_m[1])
+        fs = {"stored_fraction": lab[2] in FRAC, "requested_fraction": rq_l[0] in FRAC, "material_changes": rq_m != (lab[4], lab[5])}
+        for branch in (None, "ads", "des"):
+            for acc, vals, kw, expf in (("pressure", ps, pkw_, lambda v: expected_pressure(P, lab, rq_p, v)), ("loading", ls, lkw_, lambda v: expected_loading(P, lab, rq_l, rq_m, v))):
+                exp0 = [vals[i] for i in idx[branch]]
+                try:
+                    got = [float(x) for x in getattr(iso_a, acc)(branch=branch)]
+                except Exception as e:  # noqa
+                    got = repr(e)
+                ck.count(("shared-table", acc, branch, op[0]), bucket="shared table: accessors of the other isotherm")
+                if got != exp0:
+                    report("the accessors of an isotherm return its stored points whatever happens to another isotherm built from the same table",
+                           {"branch": branch, "got": got if isinstance(got, str) else got[:5], "stored_at_construction": exp0[:5]}, acc="PointIsotherm." + acc, units="stored")
+                try:
+                    exp = [expf(v) for v in exp0]
+                    native_b = [float(x) for x in getattr(iso_b, acc)(branch=branch)]
+                    got = [float(x) for x in getattr(iso_a, acc)(branch=branch, **kw)]
+                except Exception as e:  # noqa
+                    got, exp, native_b = repr(e), None, None
+                if exp is None:
+                    if "ParameterError" not in got and "CalculationError" not in got:
+                        report("accessor = permanent conversion of a copy, read natively", {"branch": branch, "got": got}, acc="PointIsotherm." + acc, units="requested", **(fs if acc == "loading" else {}))
+                    continue
+                if not (vals_eq(got, exp, 1e-10) and vals_eq(native_b, exp, 1e-9)):
+                    report("accessor = permanent conversion of a copy, read natively (the copy: a second isotherm built from the same table)",
+                           {"branch": branch, "got": got[:5], "converted_one_read_natively": native_b[:5], "SI_oracle": [float(x) for x in exp][:5]},
+                           acc="PointIsotherm." + acc, units="requested", **(fs if acc == "loading" else {}))
+        try:
+            got = [float(iso_a.loading_at(p)) for p in ps[:n]]
+            ok = vals_eq(got, ls[:n], 1e-12)
+        except Exception as e:  # noqa
+            got, ok = repr(e), False
+        if not ok:
+            report("interpolated values coincide with the data at measured points", {"got": got if isinstance(got, str) else got[:5], "measured": ls[:5]}, acc="PointIsotherm.loading_at")
+        # limits in the units of the converted one, on the unconverted and on the converted isotherm (descending branch, hysteresis loop)
+        probe_limits(iso_a, sig, [("requested", pkw_, lkw_)])
+        probe_limits(iso_b, {**sig, "state": "the converted one of two isotherms built from one table"}, [("stored", {}, {})], others=others)
+
+    for ci in range(ck.n(40, 260)):
+        probe_shared_table(ci)
+
     for ci in range(ck.n(45, 320)):
         try:
             iso, w, route, hist = build_point_state()
@@ -1136,6 +1316,10 @@ def run(ck):
             continue
         if complete(w):
             probe_point(iso, w, route, hist, ci)
+            rq = pick_request(rng, c02.labels_of(iso), PST, LST, MST)
+            probe_limits(iso, {"state": route, "stored": [str(x) for x in c02.labels_of(iso)[:6]], "adsorbate": w.name},
+                         [("stored", {}, {}), ("requested", dict(pressure_mode=rq[0][0], pressure_unit=rq[0][1]),
+                                               dict(loading_basis=rq[1][0], loading_unit=rq[1][1], material_basis=rq[2][0], material_unit=rq[2][1]))], others=("enthalpy",))
     for ci in range(ck.n(30, 220)):
         miso, w, route, mname, par, own = build_model_state()
         if complete(w):
